@@ -232,3 +232,13 @@ Print Assumptions C05_absent_field_access_rejected.
 Print Assumptions C05_absent_field_rejected.
 Print Assumptions C05_case_unknown_variant_rejected.
 Print Assumptions C05_case_not_total_rejected.
+
+(* ---- source tie: the hand-written model behind these theorems mirrors the files below; the digests of their
+   functions regenerated from /repo on this run equal the reviewed ones (coq/Doc/DocSrcDigest.v).  Any edit of
+   such a function breaks this obligation: the differential tie and the oracle then decide (tools/check.py). *)
+From Sylt Require Doc.SrcDigest Doc.DocSrcDigest Gen.GenSrcDigest.
+Theorem C05_model_sources_reviewed :
+  Sylt.Doc.SrcDigest.sources_reviewed ["sylt-compiler/src/typechecker.rs"%string; "sylt-compiler/src/ty.rs"%string]
+    Sylt.Doc.DocSrcDigest.doc_src_digests Sylt.Gen.GenSrcDigest.src_digests = true.
+Proof. vm_compute. reflexivity. Qed.
+Print Assumptions C05_model_sources_reviewed.
